@@ -62,7 +62,9 @@ type Fault struct {
 	// io.ErrUnexpectedEOF (what an HTTP body reports when the connection drops);
 	// for read_error "" = a custom error, "deadline" = context.DeadlineExceeded,
 	// "closed" = io.ErrClosedPipe, "with_data" = a custom error returned together
-	// with the last bytes before it (n > 0 and err != nil in one Read).
+	// with the last bytes before it (n > 0 and err != nil in one Read), "reset" /
+	// "epipe" = a *net.OpError wrapping ECONNRESET / EPIPE, "canceled" = an error
+	// wrapping context.Canceled although the query's own context is alive.
 	ErrKind string `json:"err_kind,omitempty"`
 }
 
